@@ -114,18 +114,27 @@ pub fn capacity<S: Src>(s: &mut S) {
         let dc = rel(code_len as u64, 2 * flash as u64);
         let de = rel(eeprom_len as u64, eeprom as u64);
         let dr = rel(ram_fill as u64, ram as u64);
-        // ATmega48: 2048 words flash, 256 bytes eeprom, 512 bytes ram
-        let code_words = (4096 + dc + if dc % 2 != 0 { dc.signum() } else { 0 }) / 2;
-        let ee = 256 + de;
-        let rm = 512 + dr;
-        let src = format!(
-            ".device ATmega48\n.cseg\n.org {}\nnop\n.eseg\n.byte {}\n.dseg\n.byte {}\n",
-            code_words - 1,
-            ee,
-            rm
-        );
+        // device of the table with the same "has no such memory" pattern as the counterexample
+        // (name, flash words, eeprom bytes, ram bytes)
+        let (dev, dflash, dee, dram): (&str, i64, i64, i64) = if eeprom == 0 && ram == 0 {
+            ("ATtiny11", 512, 0, 0)
+        } else if eeprom == 0 {
+            ("ATtiny20", 2048, 0, 128)
+        } else {
+            ("ATmega48", 2048, 256, 512)
+        };
+        let code_words = ((2 * dflash + dc + if dc % 2 != 0 { dc.signum() } else { 0 }) / 2).max(1);
+        let ee = (dee + de).max(0);
+        let rm = (dram + dr).max(0);
+        let mut src = format!(".device {}\n.cseg\n.org {}\nnop\n", dev, code_words - 1);
+        if ee > 0 {
+            src.push_str(&format!(".eseg\n.byte {}\n", ee));
+        }
+        if rm > 0 {
+            src.push_str(&format!(".dseg\n.byte {}\n", rm));
+        }
         s.note_s("api_source", &src);
-        let want_ok = dc <= 0 && de <= 0 && dr <= 0;
+        let want_ok = 2 * code_words <= 2 * dflash && ee <= dee && rm <= dram;
         let r = std::panic::catch_unwind(|| avra_lib::builder::build_str(&src));
         match &r {
             Err(_) => s.note_s("api_result", "PANIC"),
@@ -139,9 +148,15 @@ pub fn capacity<S: Src>(s: &mut S) {
         let good = match &r {
             Err(_) => false,
             Ok(Err(_)) => !want_ok,
-            Ok(Ok(b)) => want_ok && b.flash_size == 2048 && b.eeprom_size == 256 && b.ram_size == 512 && b.ram_filling as i64 == rm,
+            Ok(Ok(b)) => {
+                want_ok
+                    && b.flash_size as i64 == dflash
+                    && b.eeprom_size as i64 == dee
+                    && b.ram_size as i64 == dram
+                    && b.ram_filling as i64 == rm
+            }
         };
-        chk!(s, good, "C12: capacity limit / reported figures wrong on ATmega48 for the same usage-to-capacity relation");
+        chk!(s, good, "C12: capacity limit / reported figures wrong on a real device for the same usage-to-capacity relation");
     }
 }
 
